@@ -1008,3 +1008,51 @@ CONTRACTS[PA + 'PauliList.__getitem__#index'] = dict(
              'forall(k, 0, len(item), result.ps[k] == self.ps[item[k]])'],
     modifies=[], returns=dict(PLIST, exact=False),
 )
+
+# ------------------------------------------------------------------ C16 / C05 / C12: the random Clifford map and the states made from it
+# whatever the generator draws: a table with the canonical commutation relations (utils.random_clifford, proved over its recursion)
+# and signs +-1, hence - by the duality contract of to_state - a valid stabilizer state of the requested rank
+CONTRACTS[ST + 'random_clifford_map'] = dict(
+    params=[('N', 'int')], requires=['N >= 1'],
+    ensures=['rows(result.gs) == 2 * N', 'cols(result.gs) == 2 * N', 'len(result.ps) == 2 * N', 'bits2(result.gs)', 'gram_map(result.gs, N)',
+             'forall(k, 0, 2 * N, result.ps[k] == 0 or result.ps[k] == 2)'],
+    modifies=[], returns=CMAP,
+)
+_rs_post = ['rows(result.gs) == 2 * N', 'cols(result.gs) == 2 * N', 'len(result.ps) == 2 * N', 'bits2(result.gs)', 'gram(result.gs, N)',
+            # every sign is + or - (stabilizer rows k, destabilizer rows N + k)
+            'forall(k, 0, N, (result.ps[k] == 0 or result.ps[k] == 2) and (result.ps[N + k] == 0 or result.ps[N + k] == 2))',
+            'inv_state(result.gs, result.ps, result.r, N)']
+CONTRACTS[ST + 'random_clifford_state#none'] = dict(
+    params=[('N', 'int'), ('r', 'none')], defaults={'r': None}, requires=['N >= 1'],
+    ensures=_rs_post + ['result.r == 0'], modifies=[], returns=STATE)
+CONTRACTS[ST + 'random_clifford_state#r'] = dict(
+    params=[('N', 'int'), ('r', 'int')], requires=['N >= 1', '0 <= r <= N'],
+    ensures=_rs_post + ['result.r == r'], modifies=[], returns=STATE)
+CONTRACTS[ST + 'random_pauli_state#none'] = dict(
+    params=[('N', 'int'), ('r', 'none')], defaults={'r': None}, requires=['N >= 0'],
+    ensures=_rs_post + ['result.r == 0'], modifies=[], returns=STATE)
+CONTRACTS[ST + 'random_pauli_state#r'] = dict(
+    params=[('N', 'int'), ('r', 'int')], requires=['N >= 0', '0 <= r <= N'],
+    ensures=_rs_post + ['result.r == r'], modifies=[], returns=STATE)
+
+# a gate with neither generator nor maps is resampled at every call (random_clifford_map(n)): whatever is drawn, a valid state stays valid
+GATE_RND = {'cls': 'CliffordGate', 'fields': {'n': 'int', 'generator': 'none', 'forward_map': 'none', 'backward_map': 'none', 'qubits': 'none'}}
+GATE_RND_L = {'cls': 'CliffordGate', 'fields': {'n': 'int', 'generator': 'none', 'forward_map': 'none', 'backward_map': 'none', 'qubits': 'int1'}}
+_rnd_local_req = ['self.n >= 1', 'cols(obj.gs) % 2 == 0', 'len(self.qubits) >= 1', '2 * self.n == %s' % _cntL,
+                  'forall(k, 0, len(self.qubits), 0 <= self.qubits[k] < cols(obj.gs) // 2)', _inv_obj]
+CONTRACTS[CI + 'CliffordGate.forward#random_global_state'] = dict(
+    params=[('self', GATE_RND), ('obj', STATE)],
+    requires=['self.n == cols(obj.gs) // 2', 'self.n >= 1', 'cols(obj.gs) % 2 == 0', _inv_obj],
+    ensures=_inv_obj_post, modifies=['obj.gs', 'obj.ps'], returns='=obj',
+)
+CONTRACTS[CI + 'CliffordGate.forward#random_local_state'] = dict(
+    params=[('self', GATE_RND_L), ('obj', STATE)],
+    requires=['self.n != cols(obj.gs) // 2'] + _rnd_local_req,
+    ensures=_inv_obj_post, modifies=['obj.gs', 'obj.ps'], returns='=obj',
+)
+# backward always goes through mask(qubits) ("if False and ..." in the source), on the full register too
+CONTRACTS[CI + 'CliffordGate.backward#random_state'] = dict(
+    params=[('self', GATE_RND_L), ('obj', STATE)],
+    requires=_rnd_local_req,
+    ensures=_inv_obj_post, modifies=['obj.gs', 'obj.ps'], returns='=obj',
+)
